@@ -24,7 +24,10 @@ PROP = {
             "concatenation, the dropped signer being such a hidden required party in ~150 of them); 150 count-limited "
             "authorization scenarios (authz.CountAuthorization with 1-3 uses under own/alias/unrelated kinds, up to two grantees, "
             "mixed with generic ones, 3-9 identical messages in a row through ValidateSignersWithoutParties / "
-            "ValidateSignersWithParties / real MsgAddScopeDataAccess); 14 fixed witnesses of the Coq observations. Thorough "
+            "ValidateSignersWithParties / real MsgAddScopeDataAccess); 900 MsgWriteScope updates of an existing scope WITH a "
+            "value owner (the value owner changes together with nothing else / only optional flags of existing owners / roles "
+            "or owners / data access, specification id or rollup flag, or stays / is left empty; signed by the value owner "
+            "only, the required parties only, both, or a mixed set with grants); 14 fixed witnesses of the Coq observations. Thorough "
             "enumerates 3 addresses x role lists <= 3 x 4 signers and scales the random streams ~14x. A case is non-trivial when "
             "there is at least one signer and at least one required party or required role (direct calls) / always for messages "
             "and count scenarios; distinct = distinct case terms",
@@ -35,7 +38,8 @@ PROP = {
         "the run records what the real keeper does with CountAuthorizations and compares it with that counted transcription, "
         "not with the main model",
         "scopes have no value owner and none is proposed on the scope/session/record endpoints (value-owner signer rules are "
-        "C09); for MsgUpdateValueOwners only the signer part is modelled (non-marker value owners, distinct scope ids, the "
+        "C09) except in the dedicated MsgWriteScope-with-value-owner stream (non-marker value owners, existing proposed "
+        "specification, the bank transfer / mint after an accepted signer check succeeds); for MsgUpdateValueOwners only the signer part is modelled (non-marker value owners, distinct scope ids, the "
         "bank transfer after an accepted signer check succeeds)",
         "party and signer addresses are valid bech32 account addresses (message ValidateBasic)",
         "a smart contract is what keeper.isWasmAccount says: an existing BaseAccount with sequence 0 and no public key "
@@ -43,7 +47,7 @@ PROP = {
         "the non-signature parts of the write validators (ids, spec lookups, record inputs/outputs, data-access lists) are "
         "satisfied, not modelled",
     ],
-    "level_text": "Kernel-checked theorems (32, closed under the global context) about the Gallina transcription of "
+    "level_text": "Kernel-checked theorems (34, closed under the global context) about the Gallina transcription of "
                   "signers.go / signer_utils.go and of the callers in scope.go, session.go, record.go, msg_server.go: an accepted "
                   "ValidateSignersWithParties accounts (signer or authz grant to a signer) for every non-optional required "
                   "party, admits an INJECTIVE assignment of the required-role entries to distinct available signing parties of "
@@ -56,13 +60,16 @@ PROP = {
                   "implementation's answers holds of every message the model accepts), the smart-contract rule "
                   "(C10_endpoints_contract_rule) and COMPLETENESS (C10_endpoints_complete_direct: every named party signs "
                   "directly + roles present among the signing parties + contract positions => accepted; "
-                  "C10_endpoints_checker_complete for the checker's boolean). MsgUpdateValueOwners' signer part: soundness, "
+                  "C10_endpoints_checker_complete for the checker's boolean). MsgWriteScope on an existing scope with the value-owner fields "
+                  "(Scope.Equals transcribed field by field incl. the optional flag, the only-the-value-owner-changes shortcut): "
+                  "covered by the endpoint theorems, and C10_scope_write_owner_change_needs_signatures (ANY difference in the "
+                  "owner list brings the party rules back whatever happens to the value owner). MsgUpdateValueOwners' signer part: soundness, "
                   "direct completeness without contract signers, and three refutation witnesses (observations). The required "
                   "party list is proved to matter only as a SET (C10_required_set, C10_required_list_is_a_set, "
                   "C10_required_order_and_duplicates, C10_required_addresses_set: order of scope ++ session ++ previous session, "
                   "duplicates and earlier optional entries of the same party cannot change the answer). Each run evaluates "
-                  "the transcription against the real keeper functions and the real message handlers on ~11,700 (quick) / "
-                  "~225,000 (thorough) configurations inside Coq, and evaluates the documented rule (brute-force search for the "
+                  "the transcription against the real keeper functions and the real message handlers on ~12,560 (quick) / "
+                  "~220,000 (thorough) configurations inside Coq, and evaluates the documented rule (brute-force search for the "
                   "injective assignment, proved to decide it) on the implementation's own answers. One known finding "
                   "(documentation sentence about non-party contract signers, see findings/C10.md).",
     "level_note": "Trusted: Coq kernel + vm_compute; the hand transcriptions Metadata/Signers.v and Metadata/AuthzCount.v (tied "
@@ -88,6 +95,10 @@ def _party_addrs(case):
         out.add(int(r))
     for m in re.finditer(r"\bP (\d+) \d+ (?:true|false)", case.get("op") or ""):
         out.add(int(m.group(1)))
+    if (case.get("op") or "").startswith("OWriteScopeFull"):
+        # the value owner being replaced is one of the addresses whose signature the rules look at
+        for m in re.finditer(r"\(Some (\d+)\)", case.get("op") or ""):
+            out.add(int(m.group(1)))
     return out
 
 
